@@ -80,3 +80,12 @@ Print Assumptions C14_dfs_is_rfc6901.
 
 Example C14_dfs_is_rfc6901_ex : dfs [[107; 126; 47]; []] (kids_list C14_doc) = Some (JF64 4609434218613702656).
 Proof. vm_compute. reflexivity. Qed.
+
+(* jbn_clone (a copy rebuilt by _jbl_clone_node_visit during a walk of the source) is equal to its source, for every
+   document *)
+Theorem C14_jbn_clone_equal : forall v, jbn_clone v = v.
+Proof. exact jbn_clone_equal. Qed.
+Print Assumptions C14_jbn_clone_equal.
+
+Example C14_jbn_clone_equal_ex : jbn_clone C14_doc = C14_doc /\ jbn_clone (JArr [JArr [JArr []; JI64 5]; JObj []]) = JArr [JArr [JArr []; JI64 5]; JObj []].
+Proof. split; vm_compute; reflexivity. Qed.
